@@ -4,7 +4,7 @@
 id=$1; patch=$2; tier=${3:-quick}
 cd /verif; exec 9>/tmp/repo.lock; flock 9
 p=$(realpath "$patch")
-git -C /repo apply --recount "$p" 2>/dev/null || (cd /repo && patch -p1 -F3 -s --no-backup-if-mismatch < "$p") || { echo "patch does not apply"; git -C /repo checkout -- .; exit 3; }
+git -C /repo apply --recount "$p" 2>/dev/null || (cd /repo && patch -p1 -F3 -s --no-backup-if-mismatch < "$p") || { echo "patch does not apply"; git -C /repo checkout -- .; git -C /repo clean -fq -- '*.rej' '*.orig'; echo "exit="; exit 3; }
 VERIF_NO_EVIDENCE=1 ./check $id $tier > /tmp/seedtest.$$.out 2>&1; rc=$?
 git -C /repo checkout -- . 
 grep -E "^(VIOLATION|KNOWN|OK|BROKEN|part )" /tmp/seedtest.$$.out | cut -c1-400
